@@ -86,4 +86,44 @@ def readAll (ks : Nat → UInt8) : Conn → List Nat → Src → List Bytes × C
       let (gs, c'', s'') := readAll ks c' ks' src'
       (got :: gs, c'', s'')
 
+/-! ### reads that deliver bytes TOGETHER WITH an error
+
+`io.Reader`: "Callers should always process the n > 0 bytes returned before considering
+the error."  An underlying connection may return `(n > 0, err)`: the last bytes with io.EOF,
+bytes arriving as a read deadline expires (reading may continue afterwards), or any other
+error.  A chunk of the source now carries an optional error code that is reported by the
+read that delivers the chunk's last byte. -/
+
+abbrev ESrc := List (Bytes × Option Nat)
+
+/-- one underlying `conn.Read(b)`, `len(b) = k`: bytes, error (nil or the chunk's error when
+    its last byte is delivered), rest; `none` = `(0, io.EOF)` at the end of the stream -/
+def readE (k : Nat) : ESrc → Option (Bytes × Option Nat × ESrc)
+  | [] => none
+  | (c, e) :: cs =>
+    if c.length ≤ k then some (c, e, cs) else some (c.take k, none, (c.drop k, e) :: cs)
+
+/-- Conn.Read(b): `n, err = c.conn.Read(b); c.dec.XORKeyStream(b[:n], b[:n]); return` — the
+    keystream is consumed for exactly the `n` bytes returned, whatever `err` is -/
+def readErr (ks : Nat → UInt8) (c : Conn) (k : Nat) (src : ESrc) :
+    Option (Bytes × Option Nat × Conn × ESrc) :=
+  match readE k src with
+  | none => none
+  | some (got, e, src') =>
+    some (xorAt ks c.decPos got, e, { c with decPos := c.decPos + got.length }, src')
+
+/-- a sequence of Read calls; the caller goes on reading after an error that came with or
+    without bytes, and stops at the end of the stream -/
+def readAllErr (ks : Nat → UInt8) : Conn → List Nat → ESrc → List (Bytes × Option Nat) × Conn × ESrc
+  | c, [], src => ([], c, src)
+  | c, k :: ks', src =>
+    match readErr ks c k src with
+    | none => ([], c, src)
+    | some (got, e, c', src') =>
+      let (gs, c'', s'') := readAllErr ks c' ks' src'
+      ((got, e) :: gs, c'', s'')
+
+/-- the bytes of the wire still to be read -/
+def ESrc.bytes (s : ESrc) : Bytes := (s.map (·.1)).flatten
+
 end Storrent.CryptoConn
